@@ -198,9 +198,15 @@ func (w *c08Wallet) dkgIndexes() []int {
 // c08Signers: registerSigner for every member that finished the key generation, then
 // the signers as a restarted node finds them in its storage.
 func c08Signers(w *c08Wallet) (signers []*signer, dkgIndexOf map[group.MemberIndex]int, problem string) {
+	return c08SignersLayout(w, func(seat int) int { return seat })
+}
+
+// c08SignersLayout is c08Signers for a wallet whose seat i is held by operator
+// layout(i) (operators may hold several, also non-adjacent, seats).
+func c08SignersLayout(w *c08Wallet, layout func(seat int) int) (signers []*signer, dkgIndexOf map[group.MemberIndex]int, problem string) {
 	selected := make(chain.Addresses, w.cfg.N)
 	for i := 1; i <= w.cfg.N; i++ {
-		selected[i-1] = c08Signing{}.PublicKeyBytesToAddress(c08OperatorKey(i))
+		selected[i-1] = c08Signing{}.PublicKeyBytesToAddress(c08OperatorKey(layout(i)))
 	}
 	store := &c08Store{}
 	walletID := func(*ecdsa.PublicKey) ([32]byte, error) { return [32]byte{}, nil }
@@ -760,6 +766,41 @@ func TestVerifC08Sign(t *testing.T) {
 				r.Outcome(fmt.Sprintf("stored indexes map to the key generation parties (final group %d of %d)", len(signers), w.cfg.N))
 			} else {
 				r.Outcome("stored indexes do not map to the key generation parties")
+			}
+		}
+		// the same registration for wallets whose operators hold several seats: every
+		// member must still get its own index, mapping to its own key generation party
+		if sh, _ := r.Shard(); sh == 0 || replay != nil {
+			for li, layout := range []func(int) int{
+				func(seat int) int { return (seat + 1) / 2 },       // adjacent pairs: 1,1,2,2,3
+				func(seat int) int { return 1 + (seat+1)%2 },       // alternating: 1,2,1,2,1
+				func(seat int) int { return 1 },                    // one operator holds every seat
+			} {
+				ls, ldx, lp := c08SignersLayout(w, layout)
+				r.Eval(1)
+				r.Distinct(fmt.Sprintf("indexes %s layout %d", w.name, li))
+				lcase := wcase
+				if lp != "" {
+					r.ViolationMin("register-signer-multi-seat", len(w.cfg.Excluded)*10+li, fmt.Sprintf("%s layout %d", w.name, li),
+						fmt.Sprintf("wallet whose operators hold several seats (layout %d): %s", li, lp), lcase)
+					continue
+				}
+				okL := true
+				pubL := w.results[w.dkgIndexes()[0]].PrivateKeyShare.PublicKey()
+				_ = pubL
+				for _, sg := range ls {
+					data := sg.privateKeyShare.Data()
+					i := int(sg.signingGroupMemberIndex)
+					di := ldx[sg.signingGroupMemberIndex]
+					if i < 1 || i > len(data.Ks) || data.Ks[i-1].Cmp(w.party[di]) != 0 || data.Ks[i-1].Cmp(data.ShareID) != 0 {
+						okL = false
+						r.ViolationMin("index-party-mismatch-multi-seat", len(w.cfg.Excluded)*10+li, fmt.Sprintf("%s layout %d", w.name, li),
+							fmt.Sprintf("operators holding several seats (layout %d): stored member index %d (key generation member %d) does not map to the party key that member used", li, i, di), lcase)
+					}
+				}
+				if okL {
+					r.Outcome("multi-seat layouts: stored indexes map to the key generation parties")
+				}
 			}
 		}
 		prepared[w.name] = signers
